@@ -11,7 +11,7 @@ RULE = ("seeded scenarios with emphasis on objectives whose unconstrained minimu
         "harness's own re-evaluation at the returned point. Non-trivial: refinement ran with >= 3 local evaluations, or >= 5 global trials; "
         "distinct = (family, N, box kind, refine, trials, local evaluations).")
 ASSUMPTIONS = ["|lower|/side <= 1e6 and density <= 12, so the half-cell margin of every evolvent image exceeds rounding of the affine map by > 1e5x and exact comparison is sound"]
-SIZES = {"quick": 480, "thorough": 12000}
+SIZES = {"quick": 480, "thorough": 60000}
 FAMS = ["linear", "outside", "linear", "outside", "cones", "needle", "wells", "sines", "scaled", "stairs", "discont", "noise", "const"]
 
 
